@@ -31,11 +31,11 @@ def preload():
 
 def _install_sampler():
     import artap.utils as U
-    stubs.install((U, 'random', stubs.s_random))
+    stubs.install((U, 'random', stubs.s_random), (U, 'int', ops.sint))
 
 
-def _mk(dim, box):
-    prob = ec.make_problem(dim, ('minimize',), 0, bounds=box)
+def _mk(dim, box, ncon=0):
+    prob = ec.make_problem(dim, ('minimize',), ncon, bounds=box)
     from artap.algorithm import DummyAlgorithm
     return prob, DummyAlgorithm(prob)
 
@@ -44,8 +44,9 @@ def single(args):
     dim = args['dim']
     symbolic_box = args.get('symbolic_box', False)
     from artap.individual import Individual
+    ncon = args.get('ncon', 0)
     _install_sampler()
-    prob, alg = _mk(dim, [(-1.0, 2.0)] * dim)
+    prob, alg = _mk(dim, [(-1.0, 2.0)] * dim, ncon)
 
     def body(ctx):
         ec.reset_problem(prob, ctx, faults=True)
@@ -91,6 +92,16 @@ def single(args):
             ctx.check('stored-vector-is-evaluated-vector', Not(ec.same_vec(ind.vector, calls[-1][0])))
             ctx.check('stored-costs-belong-to-stored-vector', len(ind.costs) != 1 or ind.costs[0] != calls[-1][1][0])
             ctx.check('only-transient-before-success', any(f == 'other' for f in pattern[:-1]))
+            if ncon:
+                # the feasibility marker must belong to the finally stored vector, not to a discarded one
+                # (some constraint evaluation on a vector equal to the stored one must justify the marker;
+                # which call it was, and whether others happened, is the implementation's business)
+                if len(ind.costs_signed) != 2:
+                    ctx.check('marker-belongs-to-the-stored-vector', True)
+                else:
+                    ok = [And(ec.same_vec(cvec, ind.vector), ops.Iff(bool(ind.costs_signed[-1]) is False, And(*[v < 0 for v in cvals])))
+                          for cvec, cvals in prob.h.con_calls]
+                    ctx.check('marker-belongs-to-the-stored-vector', Not(Or(*ok)))
         elif last == 'other':
             ctx.check('other-exception-propagates', not isinstance(exc, ec.OtherError))
             ctx.check('not-evaluated-after-other', ind.state == Individual.State.EVALUATED)
@@ -146,6 +157,12 @@ def batch(args):
                 ctx.check('batch-stops-at-propagated-exception', pos != len(calls) or exc is None)
                 ctx.check('batch-not-evaluated', ind.state == Individual.State.EVALUATED)
         ctx.check('batch-all-calls-accounted', pos != len(calls))
+        # without constraints every design satisfies "all constraints": retried designs must carry the
+        # same feasibility marker as designs evaluated at the first attempt (otherwise a retry alone
+        # changes the dominance rank of a design)
+        ev = [x for x in inds if x.state == Individual.State.EVALUATED]
+        ctx.check('retry-does-not-change-the-feasibility-marker',
+                  any(len(x.costs_signed) != 2 for x in ev) or len(set(bool(x.costs_signed[-1]) for x in ev if len(x.costs_signed) == 2)) > 1)
         ctx.check('batch-complete-without-exception', exc is None and done != b)
         ntrans = sum(1 for c in calls if c[2] in ('timeout', 'runtime'))
         ctx.check('batch-failed-list', len(prob.failed) != ntrans)
@@ -160,6 +177,8 @@ def configs(tier):
         {'name': 'single-dim1', 'task': 'single', 'args': {'dim': 1}, 'weight': 10, 'engine': {'validate': 100}},
         {'name': 'single-dim2-symbolic-box', 'task': 'single', 'args': {'dim': 2, 'symbolic_box': True}, 'weight': 20,
          'split': 32, 'engine': {'validate': 60}},
+        {'name': 'single-dim1-constraints', 'task': 'single', 'args': {'dim': 1, 'ncon': 1}, 'weight': 20, 'split': 32,
+         'engine': {'validate': 60}},
         {'name': 'batch-b2-f3', 'task': 'batch', 'args': {'b': 2, 'max_faults': 3}, 'weight': 15, 'split': 32,
          'engine': {'validate': 60}},
     ]
